@@ -1,7 +1,7 @@
 (** C03 - no silent conflation (statements only; proofs in Proofs/). *)
 From Coq Require Import List NArith String Bool Sorted.
 From V Require Import Base.Strings Base.Result Model.Registry Model.Settings Model.Subst
-  Model.TypePath Model.Derives Model.Generate Model.Equal Model.Shape Model.DedupSpec Model.EqualPlain Proofs.GenProofs
+  Model.TypePath Model.Derives Model.Generate Model.Equal Model.Shape Model.DedupSpec Model.EqualPlain Model.WellFormed Proofs.GenProofs
   Proofs.FidelityBase Proofs.Fidelity Proofs.FidelityGen Proofs.KeepFirst Proofs.DedupGroups Proofs.EqualSound.
 Import ListNotations.
 
@@ -143,6 +143,40 @@ Theorem C03_equal_sound_on_plain_class_partial :
     forall s n, shape_core (shape_reg r s n a) = shape_core (shape_reg r s n b).
 Proof. exact types_equal_sound_partial. Qed.
 Print Assumptions C03_equal_sound_on_plain_class_partial.
+
+(** the class stated declaratively (Model/EqualPlain.v): [unfold_ids r fuel a] lists, with
+    repetitions, the ids met when [a] is unfolded along fields, element types, tuple members,
+    compact inner types and bit-sequence store / order; [tree_like r a] = that list (at the fuel
+    of the comparison) has no repetition: no id is reached twice; [no_params_reachable r a] =
+    no type in it has a non-skipped type parameter.  On a closed registry these hypotheses put
+    the pair into the plain class: [types_equal_plain] answers, with the verdict of
+    [types_equal] ... *)
+Theorem C03_plain_class_declarative :
+  forall r a b,
+    closed r -> in_reg r a -> in_reg r b ->
+    tree_like r a -> tree_like r b -> no_params_reachable r a -> no_params_reachable r b ->
+    exists v, types_equal_plain r a b = Ok v /\ types_equal_res r a b = Ok v.
+Proof. exact plain_class_declarative. Qed.
+Print Assumptions C03_plain_class_declarative.
+
+(** ... hence soundness in declarative form *)
+Theorem C03_equal_sound_declarative_partial :
+  forall r a b,
+    closed r -> in_reg r a -> in_reg r b ->
+    tree_like r a -> tree_like r b -> no_params_reachable r a -> no_params_reachable r b ->
+    types_equal_res r a b = Ok true ->
+    forall s n, shape_core (shape_reg r s n a) = shape_core (shape_reg r s n b).
+Proof. exact types_equal_sound_declarative. Qed.
+Print Assumptions C03_equal_sound_declarative_partial.
+
+(** outside the markers the two algorithms have the same outcome, errors and panics included *)
+Theorem C03_equal_plain_same_outcome :
+  forall r a b,
+    types_equal_plain r a b <> Panic "revisit" ->
+    types_equal_plain r a b <> Panic "type parameter in scope" ->
+    types_equal_res r a b = types_equal_plain r a b.
+Proof. exact types_equal_plain_same. Qed.
+Print Assumptions C03_equal_plain_same_outcome.
 
 (** refutations of the unrestricted statement on the faithful model (findings F1, F3, F3b);
     witnesses: corpus/families/F03_same_id_coincidence.json, F14_nested_generic_explains.json
